@@ -89,6 +89,7 @@ theorem Block.encode_full_length (b : Block) (h : b.wf) :
     simp [Block.wireNums, h5]
   simp only [Block.encode, Bool.false_eq_true, ↓reduceIte, List.length_append, toBE_length, h1, h2, h3, h4,
     encU64s_length, hw]
+  omega
 
 theorem Block.decode_encode (fl : CodecFlags) (b : Block) (h : b.wf) :
     Block.decode fl (b.encode false) = .ok b := by
@@ -149,6 +150,16 @@ theorem Block.decode_encode_header (fl : CodecFlags) (b : Block) (h : b.wf) :
   simp
 
 /-! ### totality -/
+theorem take_drop_take {α} (bs : List α) (k m e : Nat) (h : k + m ≤ e) :
+    ((bs.take e).drop k).take m = (bs.drop k).take m := by
+  rw [List.drop_take, List.take_take, Nat.min_eq_left (by omega)]
+
+theorem txClaimed_take (bs : Bytes) (e : Nat) (h : 16 ≤ e) : txClaimed (bs.take e) = txClaimed bs := by
+  unfold txClaimed
+  have a := take_drop_take bs 0 4 e (by omega)
+  simp only [List.drop_zero] at a
+  rw [a, take_drop_take bs 4 4 e (by omega), take_drop_take bs 8 4 e (by omega), take_drop_take bs 12 4 e (by omega)]
+
 theorem decBlockTxs_ne_panic (fl : CodecFlags) (n : Nat) (bs : Bytes) : decBlockTxs fl n bs ≠ .panic := by
   induction n generalizing bs with
   | zero => simp [decBlockTxs]
@@ -161,22 +172,12 @@ theorem decBlockTxs_ne_panic (fl : CodecFlags) (n : Nat) (bs : Bytes) : decBlock
     rename_i h16 _ hext
     apply bind_ne_panic
     · apply Tx.decode_ne_panic_of_extent
-      have hl : (List.take (txExtent (fromBE (List.take 4 bs)) (fromBE (List.take 4 (List.drop 4 bs)))
-          (fromBE (List.take 4 (List.drop 8 bs))) (fromBE (List.take 4 (List.drop 12 bs)))) bs).length =
-          txExtent (fromBE (List.take 4 bs)) (fromBE (List.take 4 (List.drop 4 bs)))
-          (fromBE (List.take 4 (List.drop 8 bs))) (fromBE (List.take 4 (List.drop 12 bs))) := by
-        rw [List.length_take]; omega
-      rw [hl]
-      have he : 16 ≤ txExtent (fromBE (List.take 4 bs)) (fromBE (List.take 4 (List.drop 4 bs)))
-          (fromBE (List.take 4 (List.drop 8 bs))) (fromBE (List.take 4 (List.drop 12 bs))) := by
-        unfold txExtent; omega
-      unfold txClaimed
-      simp only [List.take_take, List.drop_take, Nat.min_eq_left (by omega : 4 ≤ txExtent _ _ _ _)]
-      have m1 : ∀ k, k + 4 ≤ 16 → min 4 (txExtent (fromBE (List.take 4 bs)) (fromBE (List.take 4 (List.drop 4 bs)))
-          (fromBE (List.take 4 (List.drop 8 bs))) (fromBE (List.take 4 (List.drop 12 bs))) - k) = 4 := by
-        intro k hk; omega
-      rw [m1 4 (by omega), m1 8 (by omega), m1 12 (by omega)]
-      exact Nat.le_refl _
+      have he : 16 ≤ txClaimed bs := by unfold txClaimed txExtent; omega
+      have hfold : txExtent (fromBE (List.take 4 bs)) (fromBE (List.take 4 (List.drop 4 bs)))
+          (fromBE (List.take 4 (List.drop 8 bs))) (fromBE (List.take 4 (List.drop 12 bs))) = txClaimed bs := rfl
+      rw [hfold] at hext ⊢
+      rw [txClaimed_take bs _ he, List.length_take]
+      omega
     · intro t _
       apply bind_ne_panic _ _ (ih _)
       intro l _; simp
